@@ -75,7 +75,7 @@ def render(ptype, tests):
     return src
 
 
-def assemble(suites, ptype, tag, per_pkg=160):
+def assemble(suites, ptype, tag, per_pkg=320):
     """Concatenate model suites into packages (each package is itself a suite: a sequence of tests).
     Returns list of {"id", "ptype", "tests": [...], "groups": [suite prefixes]} in two declaration orders:
     order "a": suites in pool order, names s<g>_t<pos>; order "b": the same tests declared in reverse order with
